@@ -20,6 +20,7 @@
 using namespace occa::lang;
 
 static void swallow(const char *) {}
+extern "C" void __sanitizer_print_stack_trace() __attribute__((weak));
 
 static std::string primJson(const occa::primitive &p) {
   char buf[96];
@@ -173,7 +174,16 @@ int main(int argc, char **argv) {
   volatile long *shared = (volatile long *) mmap(NULL, 4096, PROT_READ | PROT_WRITE, MAP_SHARED | MAP_ANONYMOUS, -1, 0);
   const std::string errPath = std::string(argv[2]) + ".stderr";
   tokenizer_t tk;
-  long i = rc::start_index;
+  if (&__sanitizer_print_stack_trace) {
+    // warm the sanitizer's unwinder and module list once in the parent (the children inherit them):
+    // otherwise every dying child spends ~0.3 s building them for its report
+    const int keep = dup(2), nul = open("/dev/null", O_WRONLY);
+    dup2(nul, 2);
+    __sanitizer_print_stack_trace();
+    dup2(keep, 2); close(keep); close(nul);
+  }
+  long i = rc::start_index, deaths = 0;
+  const long maxDeaths = getenv("LEXER_MAX_DEATHS") ? atol(getenv("LEXER_MAX_DEATHS")) : 200;
   const long n = (long) lines.size();
   while (i < n) {
     fflush(NULL);
@@ -199,6 +209,11 @@ int main(int argc, char **argv) {
     rc::emit("{\"beh\":" + std::to_string(j) + ",\"died\":" + mj::quote(what) + ",\"step\":" + std::to_string(shared[1]) +
              "," + reportInfo(errPath) + "}");
     i = j + 1;
+    // a tree in which very many inputs crash: stop after maxDeaths (each death costs a fork and a report)
+    if (++deaths >= maxDeaths && i < n) {
+      rc::emit("{\"stopped\":" + std::to_string(i) + ",\"deaths\":" + std::to_string(deaths) + "}");
+      break;
+    }
   }
   unlink(errPath.c_str());
   return 0;
